@@ -417,7 +417,18 @@ impl<'a, 'tcx> BodyEx<'a, 'tcx> {
                 let c = self.expr(cond);
                 Obj::new("Guard").raw("pat", &i).raw("cond", &c)
             }
-            hir::PatKind::Range(..) => Obj::new("Range"),
+            hir::PatKind::Range(lo, hi, end) => {
+                // bounds of a range pattern (`'a'..='z'`, `'A'..'Z'`): literal bounds only
+                let bound = |pe: Option<&hir::PatExpr<'tcx>>| -> Option<String> {
+                    pe.and_then(|pe| match pe.kind {
+                        hir::PatExprKind::Lit { lit, .. } => Some(self.lit(&lit)),
+                        _ => None,
+                    })
+                };
+                let l = bound(lo);
+                let h = bound(hi);
+                Obj::new("Range").opt("lo", l).opt("hi", h).b("incl", matches!(end, hir::RangeEnd::Included))
+            }
             hir::PatKind::Slice(before, mid, after) => {
                 let b: Vec<String> = before.iter().map(|x| self.pat(x)).collect();
                 let m = mid.map(|x| self.pat(x));
